@@ -76,6 +76,8 @@ type Callee struct {
 	Out      *bytes.Buffer
 	Limit    int // max invocations (runaway guard); 0 = 100000
 	Overrun  bool
+	// OnCall, when set, sees the arguments after the slot id of every invocation
+	OnCall func(seq int, args []object.PanObject)
 }
 
 func (c *Callee) fn(env *object.Env, kwargs *object.PanObj, args ...object.PanObject) object.PanObject {
@@ -99,6 +101,9 @@ func (c *Callee) fn(env *object.Env, kwargs *object.PanObj, args ...object.PanOb
 		ev.Out = c.Out.Len()
 	}
 	c.Trace = append(c.Trace, ev)
+	if c.OnCall != nil && len(args) > 1 {
+		c.OnCall(seq, args[1:])
+	}
 	r, ok := c.Plan[seq]
 	if !ok {
 		r, ok = c.PlanByID[id]
